@@ -39,6 +39,12 @@ def main():
     ctx = report.Ctx(a.prop, tier, seed)
     try:
         mod.run(ctx)
+        if tier == "thorough" and not a.replay:
+            from sa import controls
+            controls.run(ctx)
+            bad = [o for o in ctx.obligations if o["rule"] == "CONTROL" and not o["ok"]]
+            if bad:
+                raise report.AnalysisError("positive control failed: %s (%s)" % (bad[0]["key"], bad[0]["detail"]))
         if a.replay:
             with open(a.replay) as fh:
                 rp = json.load(fh)
